@@ -4,6 +4,7 @@ import (
 	"bytes"
 	"fmt"
 	"math/rand"
+	"os"
 	"sync"
 
 	"verif/internal/hx"
@@ -198,7 +199,14 @@ func xzCases(c *hx.Ctx, seed int64) []xzCase {
 	}
 	// (4g) end-of-chunk margin (margin.go, construction A): default configuration, one Write (and
 	// 4096-byte Writes); the filler length moves a maximally expensive match across the end of a chunk
-	for f := 104842; f <= 104862; f += c.Pick(2, 1) {
+	// (where the expensive match lands depends on the finder's parse of the training part: the
+	// failing lengths were 104850..104854 for the tree as received and 104774..104778 after the
+	// finder learned to try repetition distances - hence a window, scanned finer than five)
+	lo, hi, step := c.Pick(104740, 104600), c.Pick(104880, 105000), c.Pick(3, 1)
+	if v := os.Getenv("VERIF_MARGIN_A"); v != "" { // diagnostics: scan another window of filler lengths
+		fmt.Sscanf(v, "%d:%d:%d", &lo, &hi, &step)
+	}
+	for f := lo; f <= hi; f += step {
 		data := marginBuildA(marginParamsA{seed: 1, n: 200, filler: f})
 		cs := xzCase{G: XZCfg{LC: 3, LP: 0, PB: 2, DictCap: 8 << 20, BufSize: 4096, Check: 4, Matcher: 0}, Hist: []string{"W", "C"}, Fixed: [][]byte{data}, Tag: "margin"}
 		if f%4 == 0 {
